@@ -222,29 +222,34 @@ static econf_err pr_key_file(struct econf_file *key_file)
         if (econf_error != ECONF_NOGROUP) {
             print_error(econf_error);
             return econf_error;
-	} else {
-	    /* no groups defined; generating an root entry */
-	    groups = calloc(1, sizeof(char*));
-	    groups[0] = NULL;
-	    groupCount = 1;
 	}
+	/* no groups defined */
+	groupCount = 0;
     }
-    for (size_t g = 0; g < groupCount; g++) {
+    /* g == 0: the keys which do not belong to a group; then the groups */
+    for (size_t g = 0; g <= groupCount; g++) {
+        const char *group = g ? groups[g-1] : NULL;
         char **keys = NULL;
         size_t key_count = 0;
 
-        econf_error = econf_getKeys(key_file, groups[g], &key_count, &keys);
-        if (econf_error) {
+        econf_error = econf_getKeys(key_file, group, &key_count, &keys);
+        if (econf_error == ECONF_NOKEY) {
+	    /* nothing without a group, or a group without keys */
+	    if (group == NULL)
+	        continue;
+	    key_count = 0;
+	    keys = NULL;
+	} else if (econf_error) {
 	    print_error(econf_error);
             econf_free(keys);
             return econf_error;
         }
 
-	if (groups[g] != NULL)
-            printf("%s\n", groups[g]);
+	if (group != NULL)
+            printf("%s\n", group);
 
         for (size_t k = 0; k < key_count; k++) {
-            econf_error = econf_getExtValue(key_file, groups[g], keys[k], &value);
+            econf_error = econf_getExtValue(key_file, group, keys[k], &value);
             if (econf_error) {
 		print_error(econf_error);
                 econf_free(keys);
